@@ -20,6 +20,7 @@ EXPLANATION = (
     ' (PURITY-UNIFY merge/external) the purity a wildcard meets is written to both unified nodes, and an external declared `fn` is impure.'
     " (PURITY-UNIFY external) the conversion of an external's `fn` to impure depends on the declared type only; (PURITY-DECL callbacks) a `pu` external takes `pu` callbacks."
     ' (PURITY-COPY) a function read out of a blob field is copied only once its purity is settled; (FIELD-SETS, shared) functions inside enum payloads and blob fields meet the declared purity because members are compared; (UNIFY-CORE) no handler removes a recorded constraint.'
+    " (PURITY-UNIFY purity-is-never-rewritten) a function type rebuilt from another's parts keeps its purity or settles an open one; functions an external hands out are impure as well."
 )
 UNDECIDED = "purity through `external` declarations (trusted annotations) and completeness for callees of Undefined purity."
 
